@@ -26,6 +26,19 @@ type Case struct {
 	EKM       EKM            `json:"ekm"`
 	Seed      uint64         `json:"seed"`
 	Downgrade bool           `json:"downgrade"`
+	// Indirect: the server Config is returned by GetConfigForClient of an outer Config whose own
+	// version range and suite list are different (TLS 1.0 only, RC4); the returned Config is the
+	// one that "will be used to handle this connection", so the model is unchanged.
+	Indirect bool `json:"indirect,omitempty"`
+}
+
+func indirect(c Case, inner *tls.Config) *tls.Config {
+	if !c.Indirect {
+		return inner
+	}
+	return &tls.Config{Time: inner.Time, Rand: tlsgen.NewRand(c.Seed, 9), MinVersion: tls.VersionTLS10, MaxVersion: tls.VersionTLS10,
+		CipherSuites:       []uint16{tls.TLS_RSA_WITH_RC4_128_SHA},
+		GetConfigForClient: func(*tls.ClientHelloInfo) (*tls.Config, error) { return inner, nil }}
 }
 
 const limit = 20 * time.Second
@@ -171,6 +184,10 @@ func check(c Case, r *kit.R) {
 	roots := sv.Roots()
 	cc, sc := cl.Config(roots), sv.Config()
 	cc.Rand, sc.Rand = tlsgen.NewRand(c.Seed, 1, 1), tlsgen.NewRand(c.Seed, 2, 1)
+	sc = indirect(c, sc)
+	if c.Indirect {
+		r.Class("server config through GetConfigForClient")
+	}
 
 	// ---- first connection -------------------------------------------------
 	out := runConn(cc, sc, nil, c.EKM, limit)
@@ -388,6 +405,7 @@ func checkDowngrade(r *kit.R, c Case, o tlsgen.Outcome, hw bool) {
 	clx.Cache = false
 	cc, sc := clx.Config(sv.Roots()), sv.Config()
 	cc.Rand, sc.Rand = tlsgen.NewRand(c.Seed, 1, 3), tlsgen.NewRand(c.Seed, 2, 3)
+	sc = indirect(c, sc)
 	patched := false
 	hook := func(rec tlskit.Record) ([][]byte, bool) {
 		if rec.Dir == tlskit.ClientToServer && rec.Index == 0 {
@@ -489,6 +507,7 @@ func gen(t *rapid.T) Case {
 	c.EKM = genEKM(t)
 	c.Seed = rapid.Uint64().Draw(t, "seed")
 	c.Downgrade = rapid.IntRange(0, 2).Draw(t, "downgrade") != 0
+	c.Indirect = rapid.IntRange(0, 3).Draw(t, "indirect") == 0
 	return c
 }
 
